@@ -194,3 +194,11 @@ Definition verdict_legacy (c0 : N) (xs : list lin) (impl : list lobs) : N :=
   else 2%N.
 Definition verdicts_legacy (cs : list (N * list lin * list lobs)) : list N :=
   map (fun c => match c with (c0, xs, impl) => verdict_legacy c0 xs impl end) cs.
+
+Fixpoint lsf_go (n fuel : nat) (xs : list lin) (os : list lobs) : nat :=
+  match fuel with
+  | 0 => n
+  | S f => if lok false [] (firstn n xs) (firstn n os) then lsf_go (S n) f xs os else n
+  end.
+Definition shortest_fails_legacy (cs : list (N * list lin * list lobs)) : list nat :=
+  map (fun c => match c with (_, xs, os) => lsf_go 1 (length xs) xs os end) cs.
